@@ -39,6 +39,7 @@ type Obj struct {
 type PtrV struct {
 	obj  *Obj
 	path []int
+	rep  bool // representative of a class of equal elements chosen for a symbolic index: read-only
 	// fn: pointer-to-function is not supported
 }
 
